@@ -125,6 +125,24 @@ def shard(ctx, arg):
             ks = kind_of(bad[0]) if bad else ("extra",)
             ctx.violation("pool-multiset-" + "+".join(ks), "get_strings() differs from the encoded strings (as UTF-16 code units)",
                           {"missing_units": [u16(s)[:30] for s in bad[:3]], "dex": hexd})
+        if k % 3 == 0 and isinstance(got, list):
+            # what a caller does with the list it was handed (sort it, drop or add an element) is its own business: the next answer is the pool again
+            first = sorted(u16(x) for x in got)
+            try:
+                got.sort(key=u16)
+                if got:
+                    got.pop()
+                got.append("added by the caller")
+            except Exception:
+                pass
+            ctx.count("pool_asked_again_after_the_caller_changed_its_list")
+            try:
+                again = dx.get_strings()
+                if sorted(u16(x) for x in again) != first or (hasattr(dx, "get_len_strings") and dx.get_len_strings() != len(first)):
+                    ctx.violation("pool-changes-when-a-returned-list-is-modified", "get_strings()/get_len_strings() report the caller's modified list instead of the pool",
+                                  {"pool_size": len(first), "reported_size": len(again), "dex": hexd})
+            except Exception as e:
+                ctx.violation("pool-second-query-raises", "a second get_strings() raises", {"exc": exc_str(e), "dex": hexd})
         cm = dx.get_class_manager()
         for i, s in enumerate(want):
             ctx.count("strings_compared")
